@@ -67,6 +67,14 @@ def check_masked(inp):
     val = float(models.evaluate_average_loss(params, batches, key, pel, r))
     if np.isnan(val) or abs(val - ref_loss()) > 1e-4 * (1 + abs(ref_loss())):
       return f'average loss with padded batches of {bs}/{buckets}: {val}, expected {ref_loss()} (n={n}, reg={use_reg})'
+  # real rows at any position of a batch (a mask and-ed with a filter): [F, T, T, ...]
+  if n >= 2:
+    whole = {k_: np.concatenate([np.full_like(np.asarray(v)[:1], 9), np.asarray(v)]) for k_, v in data.items()}
+    whole['__mask__'] = np.array([False] + [True] * n)
+    val = float(models.evaluate_average_loss(params, [whole], key, pel, r))
+    if np.isnan(val) or abs(val - ref_loss()) > 1e-4 * (1 + abs(ref_loss())):
+      return (f'average loss of a batch whose first row is masked out (mask [F, T, ...]): {val}, expected {ref_loss()} '
+              f'(n={n}, reg={use_reg})')
   # a batch list padded to a fixed number of batches: fully padded (all-False mask) batches, with garbage rows, anywhere
   if n > 0:
     real = list(ds.padded_batch(batch_size=2))
